@@ -343,6 +343,9 @@ func Build(v V, env *Env) interface{} {
 		return map[int]int{1: 2, 3: 4}
 	case "mapifk":
 		return map[interface{}]interface{}{"k": 1, 2: "two"}
+	case "yamlmap":
+		// what a YAML/MessagePack decoder hands over: keys of any kind, some of which print alike
+		return map[interface{}]interface{}{"k": 1, true: "bool key", "true": "text key", 1: "int key", "1": "digit text key", nil: "nil key", "null": "null text key", 2.5: "float key", "name": v.S}
 	case "chan":
 		return make(chan int, 1)
 	case "stringer":
@@ -621,7 +624,7 @@ func RandValue(r *rand.Rand, depth int) V {
 	}
 }
 
-var oddKinds = []string{"mystr", "myint", "myf64", "mymap", "mylist", "arr3", "strarr2", "ppint", "pmap", "mapik", "mapifk", "chan", "stringer", "pstringer", "holder", "nilholder", "listnil", "bytes", "errval", "cplx", "uintptr", "nilfunc", "nilslice", "nilstrs", "nilmap", "emptylist", "selfembed", "selfembed1", "pselfembed", "mutual", "mutual1", "rawbytes", "myrunes"}
+var oddKinds = []string{"mystr", "myint", "myf64", "mymap", "mylist", "arr3", "strarr2", "ppint", "pmap", "mapik", "mapifk", "chan", "stringer", "pstringer", "holder", "nilholder", "listnil", "bytes", "errval", "cplx", "uintptr", "nilfunc", "nilslice", "nilstrs", "nilmap", "emptylist", "selfembed", "selfembed1", "pselfembed", "mutual", "mutual1", "rawbytes", "myrunes", "yamlmap"}
 
 // OddKinds lists the odd kinds (for exhaustive pairings).
 func OddKinds() []string { return append([]string{}, oddKinds...) }
